@@ -141,6 +141,15 @@ static int parseAdvance(MPT_INTERFACE(iterator) *ptr)
 		it->val = it->restore + 1;
 		*it->restore = it->save;
 		it->restore = 0;
+		/* white space behind the last element is no further element */
+		if (isspace((unsigned char) it->save)) {
+			const char *rest = it->val;
+			while (rest < it->end && isspace((unsigned char) *rest)) ++rest;
+			if (rest == it->end) {
+				it->val = 0;
+				return 0;
+			}
+		}
 	}
 	else if ((next = memchr(it->val, 0, len))) {
 		it->val = next + 1;
